@@ -86,6 +86,9 @@ class Config:
             for p in range(m):
                 L.append("add 0 %d" % p)
         paths = r.sample(PATHS, m)
+        if m >= 2 and r.random() < 0.3:
+            # names containing dots: two different name lists that print as the same dotted path
+            paths[:2] = r.choice([["enc/l0.w", "enc.l0/w"], ["a.b/c", "a/b.c"]])
         names = " ".join(T.stat_names)
         how_same = "near" if (self.clip or self.cross) else "bits"
         copies = []          # (optimizer id, first parameter id)
@@ -295,6 +298,8 @@ def run(chk):
             chk.report("optim-resume:crash-at-exit:" + c["kind"], "the harness process fails at exit (%s)" % c["kind"],
                        {"family": "optim", "stderr": c.get("stderr", "")[-1500:]}, found_input=True)
     ol.report_broken(chk)
+    from props import C20 as _c20
+    _c20.run_eq_leg(chk, lambda name: "Save" in name or "Load" in name or "Optimizer" in name)    # checkpoint and resume through the C API
     chk.trusted += [
         "depends on property C13: `checkpoint`/`restore` of Model/Resume.lean keep exactly the get_configs maps and value + all named statistics of every parameter; that Optimizer::save/load and Model::save/load(with_stats=true) carry these data bit for bit through the file is C13's statement (here it is only exercised: the harness saves to and loads from real temporary files)",
         "modelled, not verified: Optimizer::update/add and Parameter are hand-modelled (Model/Optimizer.lean); update_parameter, configure_parameter, get_configs/set_configs, constructor defaults and the base-class settings are translated from the sources on every run",
